@@ -167,7 +167,8 @@ def select_start_nodes(td, env, num_starts):
             # for the orienteering problem, we may have some nodes that are not available
             # (too far to get back in time): only available nodes may be start nodes
             available = td["action_mask"][..., 1:]
-            if (available.sum(-1) >= num_starts).all():
+            enough = available.sum(-1, keepdim=True) >= num_starts
+            if enough.all():
                 # the first `num_starts` available nodes (nodes 1..num_starts if all are available)
                 selected = (
                     torch.argsort((~available).int(), dim=-1, stable=True)[
@@ -176,12 +177,21 @@ def select_start_nodes(td, env, num_starts):
                     + 1
                 )  # re-add depot index
             else:
-                # not enough available nodes: resample from the distribution of available
-                # nodes (an instance without any can only start at the depot)
+                # instances without enough available nodes resample from the distribution of
+                # their available nodes (an instance without any can only start at the depot)
                 weights = torch.cat(
                     (available.sum(-1, keepdim=True) == 0, available), dim=-1
                 ).float()
                 selected = torch.multinomial(weights, num_starts, replacement=True)
+                if enough.any():
+                    # the others still get distinct start nodes
+                    first_available = (
+                        torch.argsort((~available).int(), dim=-1, stable=True)[
+                            ..., :num_starts
+                        ]
+                        + 1
+                    )
+                    selected = torch.where(enough, first_available, selected)
             selected = rearrange(selected, "b n -> (n b)")
     return selected
 
